@@ -1,3 +1,4 @@
+import FractopoModel.Generated.GridLoops
 import FractopoModel.Model.Grid
 import FractopoModel.Generated.Grid
 /-!
@@ -206,5 +207,76 @@ theorem C18_schedule {α β : Type} (f : α → β) (cs : List α) (done : List 
     rw [gather, this]; simp; omega
 
 example : gather 3 [(2, "c"), (0, "a"), (1, "b")] = [some "a", some "b", some "c"] := by decide
+
+/-! ### the regenerated loops of `create_grid` -/
+
+def cellTuple (c : Cell) : Rat × Rat × Rat × Rat := (c.left, c.right, c.bottom, c.top)
+
+theorem flatMap_congr' {α β : Type} (l : List α) (f g : α → List β) (h : ∀ x ∈ l, f x = g x) : l.flatMap f = l.flatMap g := by
+  induction l with
+  | nil => rfl
+  | cons a as ih => simp only [List.flatMap_cons, h a (by simp), ih (fun x hx => h x (by simp [hx]))]
+
+theorem grid_inner_eq (a b c d w xl xr h : Rat) (rows : Int) (l : List Nat) (p : List (Rat × Rat × Rat × Rat)) (yt yb : Rat) :
+    Gen.create_grid_cells_loop2 a b c d w xl xr h rows l p yt yb =
+      (p ++ (List.range l.length).map (fun (i : Nat) => (xl, xr, yb - (i : Rat) * h, yt - (i : Rat) * h)), yt - (l.length : Rat) * h, yb - (l.length : Rat) * h) := by
+  induction l generalizing p yt yb with
+  | nil => simp [Gen.create_grid_cells_loop2]; constructor <;> grind
+  | cons x rest ih =>
+    rw [Gen.create_grid_cells_loop2, ih]
+    simp only [List.length_cons, List.range_succ_eq_map, List.map_cons, List.map_map, Prod.mk.injEq]
+    refine ⟨?_, ?_, ?_⟩
+    · rw [List.append_assoc]
+      congr 1
+      simp only [List.singleton_append, List.cons.injEq, Prod.mk.injEq, Function.comp_def]
+      refine ⟨⟨trivial, trivial, by simp; grind, by simp; grind⟩, ?_⟩
+      apply List.map_congr_left
+      intro i _
+      simp only [Prod.mk.injEq, true_and]
+      constructor <;> (push_cast; grind)
+    · push_cast; grind
+    · push_cast; grind
+
+theorem grid_outer_eq (a b c d w yt0 yb0 h : Rat) (rows cols : Int) (hyb : yb0 = yt0 - h) (l : List Nat) (p : List (Rat × Rat × Rat × Rat)) (xl xr : Rat) :
+    (Gen.create_grid_cells_loop1 a b c d w yt0 yb0 rows h cols l p xl xr).1 =
+      p ++ (List.range l.length).flatMap (fun (k : Nat) => (List.range rows.toNat).map fun (i : Nat) =>
+        (xl + (k : Rat) * w, xr + (k : Rat) * w, yb0 - (i : Rat) * h, yt0 - (i : Rat) * h)) := by
+  induction l generalizing p xl xr with
+  | nil => simp [Gen.create_grid_cells_loop1]
+  | cons x rest ih =>
+    rw [Gen.create_grid_cells_loop1]
+    simp only [grid_inner_eq, List.length_range]
+    rw [ih]
+    simp only [List.length_cons, List.range_succ_eq_map, List.flatMap_cons, List.flatMap_map, List.append_assoc]
+    congr 1
+    congr 1
+    · apply List.map_congr_left
+      intro i _
+      simp only [Prod.mk.injEq, and_true]
+      constructor <;> (push_cast; grind)
+    · apply flatMap_congr'
+      intro k _
+      apply List.map_congr_left
+      intro i _
+      simp only [Function.comp, Prod.mk.injEq, and_true]
+      constructor <;> (push_cast; grind)
+
+/-- **The regenerated loops of `create_grid` build exactly the model grid**: `cols × rows` cells, column by column from the left,
+each column from the top, cell (c, r) spanning `[xmin + c·w, xmin + (c+1)·w] × [ymax − (r+1)·w, ymax − r·w]` -- what the
+repeated additions of the loops reach in exact arithmetic -- with `rows = ⌈(ymax − ymin)/w⌉`, `cols = ⌈(xmax − xmin)/w⌉`. All
+theorems about `Grid.cells` (`C18_cell_square`, `C18_cell_count`, `C18_disjoint`, `C18_cover`) therefore hold of the regenerated code. -/
+theorem C18_generated_grid (xmin ymin xmax ymax w : Rat) :
+    Gen.create_grid_cells xmin ymin xmax ymax w =
+      (cells xmin ymax w (((ymax - ymin) / w).ceil.toNat) (((xmax - xmin) / w).ceil.toNat)).map cellTuple := by
+  unfold Gen.create_grid_cells
+  simp only []
+  rw [grid_outer_eq _ _ _ _ _ _ _ _ _ _ rfl]
+  simp only [List.nil_append, List.length_range, cells, List.map_flatMap, List.map_map]
+  apply flatMap_congr'
+  intro k _
+  apply List.map_congr_left
+  intro i _
+  simp only [Function.comp, cellTuple, cell, Prod.mk.injEq]
+  refine ⟨by grind, by grind, by grind, by grind⟩
 
 end C18
